@@ -235,3 +235,58 @@ func resultValue(call *ssa.Call, i int) ssa.Value {
 	}
 	return nil
 }
+
+// resolvePathFacts: branch conditions that are phis (a flag set on the way:
+// `found := false; if … { found = true }; if found {`) are replaced by the
+// value the phi takes on this very path. A constant that contradicts the
+// branch taken makes the path infeasible.
+func resolvePathFacts(pf pathFacts) (pathFacts, bool) {
+	out := pathFacts{blocks: pf.blocks}
+	for _, f := range pf.facts {
+		v := f.Cond
+		truth := f.Truth
+		for i := 0; i < 6; i++ {
+			if u, ok := v.(*ssa.UnOp); ok && u.Op == token.NOT {
+				v, truth = u.X, !truth
+				continue
+			}
+			ph, ok := v.(*ssa.Phi)
+			if !ok {
+				break
+			}
+			pos := -1
+			for j := len(pf.blocks) - 1; j >= 1; j-- {
+				if pf.blocks[j] == ph.Block() {
+					pos = j
+					break
+				}
+			}
+			if pos < 1 {
+				break
+			}
+			found := false
+			for k, p := range ph.Block().Preds {
+				if p == pf.blocks[pos-1] {
+					v = ph.Edges[k]
+					found = true
+					break
+				}
+			}
+			if !found {
+				break
+			}
+		}
+		if k, ok := v.(*ssa.Const); ok && k.Value != nil && (k.Value.ExactString() == "true" || k.Value.ExactString() == "false") {
+			if (k.Value.ExactString() == "true") != truth {
+				return out, false
+			}
+			continue
+		}
+		m := map[Fact]bool{}
+		addCondFacts(m, v, truth)
+		for nf := range m {
+			out.facts = append(out.facts, nf)
+		}
+	}
+	return out, true
+}
